@@ -17,6 +17,9 @@ def gen_rnd_board(seed, length, width, prob_loose_tile, max_reward=6, force_down
     rewards = []
     loose_tiles = []
     move_max = 4 if force_down else 3
+    # 2**-(max_reward+1): a negative exponent underflows towards 0 for large
+    # max_reward instead of raising OverflowError like 1.0/2.0**(max_reward+1)
+    min_uniform = 2.0**-(max_reward+1)
 
     # construct the board
     random.seed(seed)
@@ -26,8 +29,8 @@ def gen_rnd_board(seed, length, width, prob_loose_tile, max_reward=6, force_down
         for _ in range(width):
             rewards[i].append(math.floor(
                 -math.log(
-                    1.0/2.0**(max_reward+1) +
-                    random.random()*(1.0-1.0/2.0**(max_reward+1)))/math.log(2.0)))
+                    min_uniform +
+                    random.random()*(1.0-min_uniform))/math.log(2.0)))
             loose_tiles[i].append(1 if random.random() < prob_loose_tile else 0)
     moves = get_random_moves(length, width, force_down)
     return moves, rewards, loose_tiles
